@@ -926,7 +926,7 @@ fn reent_case(seed: u64, script: Option<(Vec<Vec<ReAct>>, Vec<ReAct>, Vec<u8>, u
             }
             let k = rng.below(3) as usize;
             let in_drop: Vec<ReAct> = (0..k).map(|_| *rng.pick(&[ReAct::WakeSelf, ReAct::WakeShared, ReAct::WakeSharedByRef, ReAct::DropSharedWakers, ReAct::DropPromise, ReAct::PollPromise, ReAct::DropToken, ReAct::Cancel])).collect();
-            let ext: Vec<u8> = (0..rng.range(2, 10)).map(|_| rng.below(8) as u8).collect();
+            let ext: Vec<u8> = (0..rng.range(2, 10)).map(|_| rng.below(11) as u8).collect();
             (in_poll, in_drop, ext, rng.range(1, 5), rng.chance(2, 3))
         }
     };
@@ -936,7 +936,7 @@ fn reent_case(seed: u64, script: Option<(Vec<Vec<ReAct>>, Vec<ReAct>, Vec<u8>, u
     // script throws the token away without cancelling, never dropping the
     // future is the documented outcome, not a leak of the task implementation.
     let owns_waker = in_poll.iter().flatten().any(|a| *a == ReAct::OwnWaker);
-    let token_discarded = in_poll.iter().flatten().chain(in_drop.iter()).any(|a| *a == ReAct::DropToken) || (ext.iter().any(|e| *e == 7) && seed % 4 == 3);
+    let token_discarded = in_poll.iter().flatten().chain(in_drop.iter()).any(|a| *a == ReAct::DropToken) || ext.iter().any(|e| *e >= 10);
     let cycle_possible = owns_waker && token_discarded;
     if cycle_possible && avoid_cycles {
         // Leak detectors (Miri, LeakSanitizer) would report the documented cycle.
@@ -973,7 +973,10 @@ fn reent_case(seed: u64, script: Option<(Vec<Vec<ReAct>>, Vec<ReAct>, Vec<u8>, u
             4 => re_apply(ReAct::WakeShared, &sh, None, &mut none),
             5 => re_apply(ReAct::WakeSharedByRef, &sh, None, &mut none),
             6 => re_apply(ReAct::PollPromise, &sh, None, &mut none),
-            _ => re_apply(*[ReAct::Cancel, ReAct::DropPromise, ReAct::DropSharedWakers, ReAct::DropToken].get(seed as usize % 4).unwrap(), &sh, None, &mut none),
+            7 => re_apply(ReAct::Cancel, &sh, None, &mut none),
+            8 => re_apply(ReAct::DropPromise, &sh, None, &mut none),
+            9 => re_apply(ReAct::DropSharedWakers, &sh, None, &mut none),
+            _ => re_apply(ReAct::DropToken, &sh, None, &mut none),
         }
         if queued(tag) > 1 {
             return Err(format!("two runnables of one task are scheduled at the same time ({})", desc));
@@ -1044,6 +1047,13 @@ fn reent_part(rep: &mut Report, opts: &Opts) {
         (vec![vec![ReAct::ShareWaker, ReAct::Cancel]], vec![ReAct::WakeSharedByRef, ReAct::WakeShared], vec![0, 0, 0], 5, false),
         (vec![vec![ReAct::OwnWaker, ReAct::WakeSelf, ReAct::Cancel], vec![ReAct::WakeSelf]], vec![ReAct::WakeSelf], vec![0, 0, 0], 5, true),
         (vec![vec![ReAct::ShareWaker], vec![ReAct::Cancel, ReAct::DropPromise]], vec![ReAct::WakeShared], vec![0, 4, 0, 0], 5, true),
+        // An idle task cancelled from outside whose future owns the only other
+        // reference (a waker released by the future's own destructor).
+        (vec![vec![ReAct::OwnWaker]], vec![], vec![0, 8, 7], 5, true),
+        (vec![vec![ReAct::OwnWaker]], vec![], vec![0, 7], 5, false),
+        (vec![vec![ReAct::OwnWaker, ReAct::OwnWaker]], vec![ReAct::WakeSelf], vec![0, 8, 7], 5, true),
+        (vec![vec![ReAct::ShareWaker]], vec![ReAct::DropSharedWakers], vec![0, 8, 7], 5, true),
+        (vec![vec![ReAct::ShareWaker, ReAct::DropPromise]], vec![ReAct::DropSharedWakers], vec![0, 7], 5, true),
     ];
     let n = if cfg!(miri) { 40 } else { opts.n(60000, 1000000) };
     for case in 0..n {
